@@ -14,11 +14,13 @@ speculative-execution plan, retry policy, clock.  One history op = one call into
   ['nextpage', [hosts]]            future.start_fetching_next_page() with a fresh query plan
   ['addcb']                        future.add_callbacks(cb_k, eb_k)
   ['result']                       future.result() (only when it would not block)
+  ['ksreport', c, h, err]          pool h reports the outcome of its internal USE to keyspace propagation c (started by a
+                                   SET_KEYSPACE answer through the REAL Session._set_keyspace_for_all_pools)
 
 Times are integer milliseconds; the fake time.time() returns exact Fractions of seconds, so no float rounding
 enters the comparison with the model (which counts milliseconds in Z).
 """
-import collections, re, sys, threading
+import collections, re, sys, threading, types
 from fractions import Fraction
 from functools import partial
 
@@ -72,6 +74,7 @@ class FakeConn(object):
     orphaned_threshold_reached = False
     keyspace = None
     is_defunct = False
+    is_closed = False
 
     def __init__(self, world, host):
         self.world, self.host = world, host
@@ -93,6 +96,7 @@ class FakeConn(object):
 
     def defunct(self, exc):
         self.defuncts += 1
+        self.is_defunct = True
 
 
 class FakePool(object):
@@ -119,6 +123,21 @@ class FakePool(object):
         else:
             self.returned += 1
 
+    def _set_keyspace_for_all_conns(self, keyspace, callback):
+        """like HostConnection: a shut-down pool reports at once; otherwise the internal USE is in flight until the
+        history delivers its outcome (['ksreport', chain, host, err])"""
+        if self.is_shutdown:
+            callback(self, [])
+            return
+        w = self.world
+        for ch in w.chains:
+            if ch['cb'] is callback:
+                break
+        else:
+            ch = {'cb': callback, 'waiting': {}, 'err': False}
+            w.chains.append(ch)
+        ch['waiting'][self.host.i] = self
+
 
 class PoolMap(object):
     """session._pools: hosts whose state is 'missing' have no pool"""
@@ -132,6 +151,9 @@ class PoolMap(object):
         if host.i not in self.pools:
             self.pools[host.i] = FakePool(self.world, host)
         return self.pools[host.i]
+
+    def values(self):
+        return [self.get(self.world.host(i)) for i in sorted(self.world.pool_state) if self.world.pool_state[i] != 'missing']
 
 
 class FakeLB(object):
@@ -221,6 +243,8 @@ class World(object):
         self.epoch_start = self.now
         self.timed_out = False
         self.result_log = []
+        self.chains = []         # keyspace propagations: {'cb': closure of the real Session method, 'waiting': {host: pool}, 'err': bool}
+        self.swallowed = []      # exceptions that escaped into the (fake) reactor / executor, which log and go on
         self.session = Obj()
         s = self.session
         s.row_factory = lambda names, rows: rows
@@ -228,6 +252,8 @@ class World(object):
         s.is_shutdown = False
         s._pools = PoolMap(self)
         s.submit = self._submit
+        s._lock = threading.RLock()
+        s._set_keyspace_for_all_pools = types.MethodType(cl.Session._set_keyspace_for_all_pools, s)
         s.cluster = Obj()
         s.cluster.connection_class = FakeConnectionClass(self)
         s.cluster._default_load_balancing_policy = FakeLB(self)
@@ -279,6 +305,10 @@ class World(object):
             return r
         if kind == 'void':
             return P.ResultMessage(P.RESULT_KIND_VOID)
+        if kind == 'setks':
+            r = P.ResultMessage(P.RESULT_KIND_SET_KEYSPACE)
+            r.new_keyspace = 'ks%d' % a
+            return r
         if kind == 'junk':
             r = P.ReadyMessage()
             r.att = a
@@ -336,6 +366,8 @@ class World(object):
             return 2 if (e.errors and 'Connection defunct by heartbeat' in e.errors) else 1
         if isinstance(e, NoHostAvailable):
             return 3
+        if 'Failed to set keyspace on all hosts' in str(e):
+            return 4
         m = re.search(r'att=(\d+)', str(e)) or re.search(r'att=(\d+)', repr(e))
         if m:
             return 10 + int(m.group(1))
@@ -362,6 +394,12 @@ class World(object):
     def has_paging(self):
         return bool(self.f._paging_state)
 
+    def _guarded(self, fn, *a, **kw):
+        try:
+            fn(*a, **kw)
+        except Exception as e:
+            self.swallowed.append(repr(e)[:200])
+
     # ------------------------------------------------------------------ one step
     def step(self, op):
         """returns True if the op was enabled (something was called)"""
@@ -385,20 +423,29 @@ class World(object):
                 cb, _, _ = self.session._pools.pools[h].conn._requests.pop(rid)
                 if kind == 'retry':
                     self.next_decision = arg
-                cb(self.make_response(a, kind, arg, cls))
+                self._guarded(cb, self.make_response(a, kind, arg, cls))     # Connection.process_msg logs and goes on
                 return True
             if k == 'fire':
                 if op[1] not in self.due_timers():
                     return False
                 t = self.timers[op[1]]
                 t.fired = True
-                t.callback()
+                self._guarded(t.callback)        # TimerManager.service_timeouts logs and goes on
                 return True
             if k == 'run':
                 if not (0 <= op[1] < len(self.queue)):
                     return False
                 fn, a, kw = self.queue.pop(op[1])
-                fn(*a, **kw)
+                self._guarded(fn, *a, **kw)      # the exception would stay in the executor's Future
+                return True
+            if k == 'ksreport':
+                c, h, err = op[1], op[2], op[3]
+                if not (0 <= c < len(self.chains)) or h not in self.chains[c]['waiting']:
+                    return False
+                ch = self.chains[c]
+                pool = ch['waiting'].pop(h)
+                ch['err'] = ch['err'] or bool(err)
+                self._guarded(ch['cb'], pool, [cluster_mod().ConnectionException('USE failed on h%d' % h)] if err else [])
                 return True
             if k == 'nextpage':
                 if not self.has_paging():
@@ -451,7 +498,13 @@ class World(object):
             t = self.timers[op[1]]
             t.fired = True
             return t.callback
-        raise ValueError('only resp/fire can run concurrently: %r' % (op,))
+        if k == 'addcb':
+            p = {'cb': [], 'eb': []}
+            self.pairs.append(p)
+            f = self.f
+            return lambda: f.add_callbacks(lambda v, p=p: p['cb'].append(self.canon_val(v)),
+                                           lambda e, p=p: p['eb'].append(self.canon_exc(e)))
+        raise ValueError('only resp/fire/addcb can run concurrently: %r' % (op,))
 
     def step_concurrent(self, op_a, op_b, schedule):
         """op_a and op_b run on two threads, switched at the source lines of cassandra/cluster.py in the given order"""
@@ -488,6 +541,10 @@ class World(object):
             o += [len(p['cb']), len(p['eb']), p['cb'][-1] if p['cb'] else 0, p['eb'][-1] if p['eb'] else 0]
         last = self.result_log[-1] if self.result_log else (-1, 0)
         o += [len(self.result_log), last[0], last[1]]
+        o += [len(self.swallowed), len(self.chains)]
+        for ch in self.chains:
+            hs = sorted(ch['waiting'])
+            o += [len(hs), int(ch['err'])] + hs
         return o
 
 
